@@ -108,6 +108,15 @@ check("C04", "tool-sim", "exploration",
       "Archive shapes are sampled by the generator; DST contributes chunking, short I/O, schedules. GNU tar / Python tarfile are trusted readers.",
       "deterministic simulation: seeded I/O chunking + schedule search with independent archive model and readers as oracles", "DESIGN.md 5/C04")
 
+check("C15", "tool-sim", "exploration",
+      "tar2sqfs gets the same archive plain and wrapped in gzip/xz/bzip2/zstd (levels, single stream, 2..4 concatenated members split at "
+      "arbitrary offsets incl. inside a tar header, sizes aimed at the 128 KiB / 256 KiB buffers) through seeded stdin chunkings and "
+      "EINTR: images must be identical. Stored-byte faults on the compressed stream (truncation, bit flips) must give exit != 0 or the "
+      "same image - never another tree, never a hang (CPU limit). sqfs2tar -c X output under short writes must expand, with the "
+      "reference decompressor, to the plain output.",
+      "Reference decompressors (Python zlib/lzma/bz2, zstd CLI) are trusted; a flip they do not notice is not required to be detected.",
+      "deterministic simulation: seeded chunking + stored-byte fault injection on compressed streams vs plain-input reference", "DESIGN.md 5/C15")
+
 PENDING = ["C01","C02","C03","C04","C05","C06","C07","C08","C10","C11","C12","C13","C14","C15","C19"]
 NA_REASONS = {
  "C16": "pure relation between two text transducers (describe printer, pack-file tokenizer); no schedule, clock, fault, crash point or history in the statement - deciding it is input enumeration, which deterministic simulation does not do (DESIGN.md section 0)",
@@ -131,7 +140,7 @@ def main():
             "add_only": True,
         },
         "engines": [
-            {"name": "tool-sim", "path": "simos/ + py/pipelines.py", "serves_properties": ["C01", "C02", "C03", "C04", "C08", "C11", "C12", "C13", "C14"], "kind_free_text": "each tool's real sources linked with simos under --wrap; one process per simulated run"},
+            {"name": "tool-sim", "path": "simos/ + py/pipelines.py", "serves_properties": ["C01", "C02", "C03", "C04", "C08", "C15", "C11", "C12", "C13", "C14"], "kind_free_text": "each tool's real sources linked with simos under --wrap; one process per simulated run"},
             {"name": "pool-sim", "path": "scn/pool.c", "serves_properties": ["C09"], "kind_free_text": "real threadpool.c under the simos scheduler, many runs per process"},
         ],
         "checks": [CHECKS[k] for k in sorted(CHECKS)],
